@@ -194,7 +194,13 @@ func runDTLS(op, point, cause string) (line string) {
 	}
 	time.Sleep(settle)
 	var cbA, cbB atomic.Int32
-	cc.AddOnClose(func() { cbA.Add(1) })
+	// the first callback registers two more while the shutdown walks its list: the callbacks registered before the
+	// close must still run exactly once each (whether the late ones run is not demanded)
+	cc.AddOnClose(func() {
+		cbA.Add(1)
+		cc.AddOnClose(func() {})
+		cc.AddOnClose(func() {})
+	})
 	cc.AddOnClose(func() { cbB.Add(1) })
 	baseCtx, baseCancel := context.WithCancel(context.Background())
 	defer baseCancel()
